@@ -140,24 +140,46 @@ def verdict(desc):
     return out
 
 
+def _library_raised(exc):
+    import traceback
+
+    for fr in traceback.extract_tb(exc.__traceback__):
+        f = fr.filename.replace("\\", "/")
+        if "/openaerostruct/" in f or "/openmdao/" in f:
+            return True
+    return False
+
+
 def fault_verdict(desc):
-    """groundplane=True with symmetry=False must be rejected at setup; with symmetry=True it must set up."""
+    """groundplane=True with symmetry=False must be rejected at setup (any exception raised by the library during setup is a
+    rejection); with symmetry=True it must set up.  `companion`: a second, valid symmetric ground-effect surface is part of
+    the same point, so that nothing else about the model (e.g. the height input) is missing."""
     from oasv.meshes import build_mesh
 
     out = Outcome()
     m = build_mesh(desc["mesh"])
     sym = desc["mesh"]["kind"] in ("left", "right")
-    s = aero_surface("w", m, sym, groundplane=True)
+    surfs = [aero_surface("w", m, sym, groundplane=True)]
+    if desc.get("companion"):
+        mc = build_mesh(dict(desc["mesh"], kind="left"))
+        mc = mc + np.array([3.0 * float(np.ptp(m[:, :, 0])) + 1.0, 0.0, 0.5])
+        comp = aero_surface("c", mc, True, groundplane=True)
+        surfs = [comp, surfs[0]] if desc["companion"] == "first" else [surfs[0], comp]
+        out.label("companion=" + desc["companion"])
     raised = None
     try:
-        p = aero_direct([s], dict(alpha=desc["alpha"]), height=desc["h"], setup=False)
+        p = aero_direct(surfs, dict(alpha=desc["alpha"]), height=desc["h"], setup=False)
         p.setup()
-    except ValueError as e:
+    except Exception as e:  # noqa: BLE001  the point is to observe it
+        if not _library_raised(e):
+            raise
         raised = e
     if sym:
         out.true("fault/valid_rejected", raised is None, "symmetric ground-effect surface rejected: %r" % raised)
     else:
         out.true("fault/not_rejected", raised is not None, "groundplane without symmetry was accepted at setup")
+        if raised is not None:
+            out.label("rejected_with=" + type(raised).__name__)
     out.label("symmetry=%s" % sym)
     return out
 
@@ -165,11 +187,11 @@ def fault_verdict(desc):
 def fault_config():
     return st.fixed_dictionaries(
         dict(mesh=S.mesh(kinds=("full", "left", "asym", "right"), nx=(2, 3), nyh=(2, 3), noise=False, winglet=False),
-             alpha=S.fl(-5.0, 15.0, 5.0), h=S.logfl(0.0, 4.0, 10.0))
+             alpha=S.fl(-5.0, 15.0, 5.0), h=S.logfl(0.0, 4.0, 10.0), companion=st.sampled_from([None, "first", "last"]))
     )
 
 
 SUBS = [
     Sub("images", config(), verdict, quick=560, thorough=8000),
-    Sub("reject_without_symmetry", fault_config(), fault_verdict, quick=32, thorough=200),
+    Sub("reject_without_symmetry", fault_config(), fault_verdict, quick=96, thorough=600),
 ]
